@@ -101,7 +101,7 @@ def build_shim():
         with open(src, "w") as f:
             f.write(SHIM_C)
         tmp = so + ".%d" % os.getpid()
-        util.sh(["gcc", "-O2", "-shared", "-fPIC", "-o", tmp, src], timeout=120)
+        util.sh(["gcc", "-O2", "-shared", "-fPIC", "-o", tmp, src], timeout=600)
         os.replace(tmp, so)
     return so
 
@@ -398,7 +398,7 @@ def driver_cmds(hist, msgs, rnd):
     return cmds
 
 
-def run_driver(bindir, name, first, cmds, shim=None, timeout=120, kill_after=None):
+def run_driver(bindir, name, first, cmds, shim=None, timeout=600, kill_after=None):
     d, exe = rig.prepare(name, bindir)
     out = os.path.join(d, "out.ndjson")
     env = dict(os.environ, VERIF_CMD="status", VERIF_OUT=out, RUST_BACKTRACE="0")
@@ -771,7 +771,7 @@ def stress_phase(c, bindir, rnd, msgs, nruns):
         r2 = random.Random(seed)
         tasks = stress_plan(r2, msgs, "s%d_%d" % (j, attempt), kind)
         _, raw = run_driver(bindir, "x01_st", {"op": "init", "mode": "stress", "interval_ms": 1, "tasks": tasks,
-                                               "settle_ms": 20}, [], timeout=120)
+                                               "settle_ms": 20}, [], timeout=600)
         if not raw or raw[-1].get("e") != "done":
             raise util.ToolError("stress run incomplete")
         rows, ndoc = stress_rows(raw, msgs, base, {})
